@@ -769,3 +769,7 @@ mod tests {
         }
     }
 }
+
+#[cfg(kani)]
+#[path = "/verif/kani/arrow-buffer/util/bit_chunk_iterator.rs"]
+mod verif_kani;
